@@ -44,6 +44,39 @@ class Check:
         if sample is not None and len(r["samples"]) < 6:
             r["samples"].append(sample)
 
+    def share(self, F, module, rule_ids, as_rule, why):
+        """run another property's rule module on the same facts and adopt the named rules as one rule of this check: the
+        clause this property states rests on them (e.g. "every reference designates the same block after a sort" rests on
+        every reference being enumerated).  Instances and violations are re-keyed under this property."""
+        import importlib
+        import flow as _flow, versions as _versions
+        mod = importlib.import_module(module)
+        sub = Check(module.upper(), "quick", self.level)
+        saved_k, saved_v = dict(_flow.KEYNODE), dict(_versions.VERSION_LOCALS)
+        try:
+            mod.run(F, sub)
+        finally:
+            _flow.KEYNODE.clear(); _flow.KEYNODE.update(saved_k)
+            _versions.VERSION_LOCALS.clear(); _versions.VERSION_LOCALS.update(saved_v)
+        rid = self.rule(as_rule, "%s (rules %s of %s, evaluated on the same facts)" % (why, ", ".join(rule_ids), module.upper()))
+        n = 0
+        for r in rule_ids:
+            info = sub.rules.get(r)
+            if info:
+                n += info["instances"]
+                self.rules[rid]["instances"] += info["instances"]
+                self.rules[rid]["holding"] += info["holding"]
+                self.rules[rid]["nontrivial"] += info.get("nontrivial", 0)
+        known = set()
+        if os.path.exists(KNOWN):
+            known = {k["key"] for k in json.load(open(KNOWN)).get("findings", []) if k.get("status") == "known"}
+        for v in sub.viol:
+            if v["rule"] in rule_ids and v["key"] not in known:
+                self.violation(as_rule, "%s/%s:%s" % (self.pid, as_rule, v["key"]), v["where"], v["msg"], v.get("detail"))
+        if sub.broken:
+            self.broken.append("shared rules of %s could not be evaluated: %s" % (module.upper(), sub.broken[:2]))
+        return n
+
     def floor(self, rid, floor, what=""):
         """fail as analysis-broken when a rule matches fewer instances than were confirmed by hand"""
         n = self.rules[rid]["instances"]
